@@ -342,6 +342,18 @@ theorem C19_jit_value {F : Type} (J : F → F) (hJ : ∀ f, J f = f) (fns : AdjS
   intro a ha
   rw [hit, ((C19_jit_slots v jit ops).2.1 a ha)]
 
+/-- `MatrixOperator` — the one linear-operator class that defines `adj`, `gram`, `gram_op` itself (pinned by the generated
+    `slot_model_coverage`): after ANY history of `jit()`, `A(x)`, `A.adj(y)`, `A.gram(x)`, `A.gram_op`, its private slots are a
+    function of the number `n` of `jit()` calls only — untouched (`_adj = _gram = None`) while `n = 0`, afterwards the derived
+    adjoint and `_gram`, all wrapped `n` times; its own `adj` / `gram` / `gram_op` never create or read them. -/
+theorem C19_jit_slots_matrix (ops : List LinOpOp) :
+    (LinOpState.init0 .plain).runOwn ops = specOwnSlots ((ops.filter (· == .jit)).length) := by
+  have h := LinOpState.runOwn_spec ops 0
+  simpa [specOwnSlots, LinOpState.init0] using h
+
+example : (LinOpState.init0 .plain).runOwn [.adj, .gram, .gramOp, .call] = ⟨0, none, none⟩ := by decide
+example : (LinOpState.init0 .plain).runOwn [.adj, .jit, .gram, .jit] = ⟨2, some (.derived, 2), some 2⟩ := by decide
+
 -- non-vacuity: no adjoint given, `gram_op` first, then `adj`, then `jit()` twice
 example : (LinOpState.init .plain false).run [.gramOp, .adj, .jit, .call, .jit] = ⟨2, some (.derived, 2), some 2⟩ := by decide
 example : (LinOpState.init .classAdj true).run [.gram] = ⟨1, some (.classMethod, 1), some 1⟩ := by decide
